@@ -282,7 +282,12 @@ func (w *World) prefill(c *column.Collection, p *Prefill) {
 		hole[o] = true
 	}
 	id := uint64(1)
+	blocks := []int{}
 	for b := 0; b < p.Blocks; b++ {
+		blocks = append(blocks, b)
+	}
+	blocks = append(blocks, p.Far...)
+	for _, b := range blocks {
 		buf := commit.NewBuffer(1 << 14)
 		buf.Reset("row")
 		for i := uint32(0); i < 1<<14; i++ {
@@ -293,7 +298,7 @@ func (w *World) prefill(c *column.Collection, p *Prefill) {
 		}
 		id++
 	}
-	for b := 0; b < p.Blocks; b++ {
+	for _, b := range blocks {
 		buf := commit.NewBuffer(1 << 14)
 		buf.Reset("row")
 		n := 0
@@ -356,7 +361,11 @@ func prefillModel(m *Model, p *Prefill) {
 		return
 	}
 	for _, o := range p.Survivors {
-		if int(o>>14) < p.Blocks {
+		far := false
+		for _, b := range p.Far {
+			far = far || int(o>>14) == b
+		}
+		if int(o>>14) < p.Blocks || far {
 			m.Rows[o] = map[string]MVal{}
 		}
 	}
